@@ -446,7 +446,7 @@ func init() {
 	core.RegisterCommand("c20race", raceChild)
 	core.Register(&core.Prop{
 		ID: "C20", Level: "model_checking",
-		Rule: "alphabet = independent operations each on its own fresh input (readers of every format, 5 writers, 9 transformations, file open/write), inputs chosen to collide on shared tables. Stage A: every operation alone with the canonical hash of ALL package-level state of astisub probed at every statement, and after every ordered pair of operations (if no operation changes shared state every interleaving is Mazurkiewicz-equivalent to a sequential run). Stage B: cooperative scheduler over the statement-level points of the instrumented build; states = (thread set, scheduling point), transitions = scheduling decisions; every schedule with <= 1 preemption (2 for same-format pairs in thorough) of every unordered pair in both orders and of 5 three-thread sets; each call's canonical result must equal its solo result; solo results re-checked after every other operation. Stage C: free-running goroutines (2,8,32) under the race detector with GOMAXPROCS 2,4,16",
+		Rule: "alphabet = independent operations each on its own fresh input (readers of every format, 5 writers, 9 transformations, file open/write), inputs chosen to collide on shared tables. Stage A: every operation alone with the canonical hash of ALL package-level state of astisub probed at every statement, and after every ordered pair of operations (if no operation changes shared state every interleaving is Mazurkiewicz-equivalent to a sequential run); after each operation every field of the list it returned or transformed is overwritten and the hash probed again (a result must not share memory with package-level state; colour values point at the exported Color variables by design and are left alone). Stage B: cooperative scheduler over the statement-level points of the instrumented build; states = (thread set, scheduling point), transitions = scheduling decisions; every schedule with <= 1 preemption (2 for same-format pairs in thorough) of every unordered pair in both orders and of 5 three-thread sets; each call's canonical result must equal its solo result; solo results re-checked after every other operation. Stage C: free-running goroutines (2,8,32) under the race detector with GOMAXPROCS 2,4,16",
 		Scope: map[core.Tier]string{
 			core.Quick:    "39 operations (every reader, writer, transformation, option variant, both branches of per-document options); stage A all ops (globals probed at every point) + all ordered pairs run sequentially; stage B preemption bound 1 at every point for all pairs inside a family (same format / list operations) and every operation against four probe operations, both orders, + 5 triples; stage C 3 GOMAXPROCS values",
 			core.Thorough: "stage B for ALL pairs in both orders; additionally preemption bound 2 for 9 same-format pairs",
